@@ -204,6 +204,14 @@ func checkAssumptionA2(w *World, r *Report) {
 	}
 	allowedReflect := map[string]bool{
 		"reflect.TypeOf":            true,
+		"reflect.ValueOf":           true,
+		"(reflect.Value).Kind":      true,
+		"(reflect.Value).IsNil":     true,
+		"(reflect.Value).Elem":      true,
+		"(reflect.Value).Len":       true,
+		"(reflect.Value).Index":     true,
+		"(reflect.Value).NumField":  true,
+		"(reflect.Value).Field":     true,
 		"(reflect.Type).Comparable": true,
 		"(reflect.Type).Kind":       true,
 		"(reflect.Type).String":     true,
